@@ -85,14 +85,16 @@ def render(v: dict, mpriv: bool) -> dict:
     mod = modname(mpriv)
     sib = site_of(v) == "sib"
     init = [f"from pkg.{mod} import {n}" for n in IMPORT_ORDER if n in v["imp"]]
-    if v["ext"]:
+    vend = v.get("vend", ())
+    if v["ext"] and "ext" not in vend:
         init.append("from extlib import ext")
-    if v["cyc"]:
+    if v["cyc"] and "cyc" not in vend:
         init.append(f"from pkg.{mod} import cyc")
     if v.get("mal"):
         init.append(f"import pkg.{mod} as mal")
     if v["hasRall"]:
         init.append("__all__ = [" + ", ".join(f'"{n}"' for n in RALL_ORDER if n in v["rall"]) + "]")
+    init += [f"{n} = 1" for n in ("ext", "cyc") if n in vend]      # the re-export replaced by a local definition
     text = "\n".join(init) + "\n" if init else ""
     files = {"pkg/__init__.py": "", f"pkg/{SIB}.py": text} if sib else {"pkg/__init__.py": text}
     if v["kind"]["M"] == "absent":
@@ -137,7 +139,9 @@ def check_compiles(files: dict):
 def expected_members(v: dict) -> dict:
     """Names of the members the loader must find (sanity of the renderer against the model's tree)."""
     present = lambda d: v["kind"][d] != "absent"  # noqa: E731
-    imports = [n for n in IMPORT_ORDER if n in v["imp"]] + (["ext"] if v["ext"] else []) + (["cyc"] if v["cyc"] else []) + (["mal"] if v.get("mal") else []) + (["__all__"] if v["hasRall"] else [])
+    vend = v.get("vend", ())
+    imports = ([n for n in IMPORT_ORDER if n in v["imp"]] + (["ext"] if v["ext"] and "ext" not in vend else []) + (["cyc"] if v["cyc"] and "cyc" not in vend else [])
+               + (["mal"] if v.get("mal") else []) + (["__all__"] if v["hasRall"] else []) + [n for n in ("ext", "cyc") if n in vend])
     sib = site_of(v) == "sib"
     out = {"": ([] if sib else imports) + (["M"] if present("M") else []) + ([SIB] if sib else [])}
     if sib:
